@@ -25,7 +25,7 @@ for ent in M:
         code, lines, ctx = run_property(pr, 'quick', '/repo', overrides={rel: msrc}, write=False)
         res[pr] = code
         if verbose and code != 0:
-            for l in lines[:4]: print('     ', l[:200])
+            for l in lines[:4]: print('     ', l[-900:] if 'Traceback' in l else l[:200])
     tot += 1
     hit = any(c == 1 for c in res.values())
     caught += hit
